@@ -11,7 +11,8 @@ CLAIMED = {
         technique="deterministic simulation: hash-seeded process segments with restarts, multi-operation session histories, fake clock, cwd/TMPDIR variation; reference = same operation alone in a pristine hash-seed-0 interpreter",
         text="Seeded search over sessions of 2-6 operations (genotype, multi-gene run with a failing gene, stage calls, "
              "every public accessor, both writers, query, minor stage under permuted / sub-setted candidate lists, "
-             "--debug run) executed in process segments with plan-chosen PYTHONHASHSEED, restarts, clock jumps, cwd and "
+             "--debug run, exome-route run; shipped NA10860 / VCF / dump material in the thorough tier) executed in "
+             "process segments with plan-chosen PYTHONHASHSEED, restarts, clock jumps, cwd and "
              "TMPDIR; every operation is compared with the same operation executed alone in a fresh hash-seed-0 "
              "interpreter and the catalogue / evidence renderings are compared before and after. Sampling, not proof: "
              "the space of histories x hash seeds x worlds is unbounded.",
@@ -27,8 +28,10 @@ CLAIMED = {
              "under an adversarial solver that returns another optimal vertex (real re-solve on the optimal face), under "
              "integrality jitter, and with every fault kind injected at every solve index of the enumeration; every "
              "yielded item is judged against enumeration of all binary assignments. prod / abssum helpers are checked "
-             "exhaustively for 1-4 operands. Models aldy itself builds are monitored at the seam. Fault points are "
-             "enumerated completely per model; models are sampled.",
+             "exhaustively for 1-4 operands. Systematic symmetric tie families (non-dyadic constants, both constraint "
+             "orientations), models that keep being built after a first enumeration, and two enumerations consumed in "
+             "lock-step are included; a process abort inside the solver library is a verdict. Models aldy itself builds "
+             "are monitored at the seam. Fault points are enumerated completely per model; models are sampled.",
         note="Trusted: CBC's answer is only ever judged against the brute-force table (<= 8 base binaries); the "
              "generator-known closed form of the continuous part; tolerance 1e-4. 'Agrees with independent solvers' is "
              "not decided (no second MILP solver offline).",
@@ -43,8 +46,9 @@ CLAIMED.update({
         text="For sampled generated workloads with competing structures and major solutions, a fault-free pilot counts "
              "the solves of genotype(); then every fault kind (INFEASIBLE, ABNORMAL, NOT_SOLVED, non-optimal FEASIBLE "
              "incumbent, failed verification) is injected at every solve index (first 40), one per run. For every run the "
-             "recorded returns of estimate_cn / estimate_major / estimate_minor are re-evaluated: carried-over scores, "
-             "gap filter, order, chain consistency, and the error / output behaviour when a stage returns nothing.",
+             "recorded returns of estimate_cn / estimate_major / solve_minor_model / estimate_minor are re-evaluated: "
+             "carried-over scores (also the carry-over inside the minor stage), gap filter, one major call per structure, "
+             "order, chain consistency, and the error / output behaviour when a stage returns nothing.",
         note="Trusted: the recording wrappers; the oracle is relative to the stage returns (their optimality is C02-C05). "
              "Boundary band 1e-4 around gap + precision. Fault points enumerated completely per workload, workloads sampled.",
         design="DESIGN.md section 4 (C10)",
@@ -54,8 +58,11 @@ CLAIMED.update({
         technique="deterministic simulation of a write -> process restart -> read history through the real CLI: different hash seed, cwd, TMPDIR and clock on the reading side; solver / disk-full / failing-gene faults after the dump exists",
         text="Seeded two-segment histories: `aldy genotype <bam> --debug` in one interpreter, `aldy genotype <archive>` in "
              "another with a different PYTHONHASHSEED, cwd, TMPDIR and clock, per gene or for all genes of the archive; "
-             "faults in the writing segment after the dump was written. The replayed results, scores (1e-2) and output "
-             "bytes must equal a fault-free direct run on the alignments. Sampling of worlds, parameters and faults.",
+             "faults in the writing segment after the dump was written; the exome / wxs / wes route on a database the "
+             "shipped profile knows; one-process histories that reuse a debug name for the other genome build; samples with "
+             "pseudogene-private deletions, neutral regions wider than the reads, down-sampled phase records; the shipped "
+             "NA10860 BAMs in the thorough tier. The replayed results, scores (1e-2) and output bytes must equal a "
+             "fault-free direct run on the alignments. Sampling of worlds, parameters and faults.",
         note="Trusted: recording wrapper around aldy.__main__.genotype; canonical renderings. Torn archives are out of scope "
              "(statement is silent).",
         design="DESIGN.md section 4 (C17)",
@@ -63,11 +70,14 @@ CLAIMED.update({
     "C19": dict(
         category="fault_enumeration",
         technique="deterministic simulation: data-loss faults on the alignment stream (container writer and AlignmentFile seam) enumerated over loss kind x profile route x output format x single/multi-gene",
-        text="The full grid of 9 loss kinds (gene locus, gene only, neutral region empty / nearly empty, empty file, depth "
-             "just below / just above the configured minimum, read error at the k-th record, records dropped at the "
-             "stream seam) x 3 routes (profile YAML, BAM as profile, user-supplied structure) x 4 output formats x "
-             "single / multi-gene is walked; worlds are sampled. Oracle: Aldy error, no call, no allele rows, exact "
-             "empty simple line, healthy companion gene unchanged, pseudogene-only = two deletions, just-above = call.",
+        text="The full applicable grid (172 cells) of 12 loss kinds (gene locus, locus with a decoy contig in an unindexed "
+             "text SAM, a sliver of the locus, gene only, neutral region empty / nearly empty, empty file, depth just below "
+             "/ just above the configured minimum, read error at the k-th record, records dropped at the stream seam) x 4 "
+             "routes (profile YAML, BAM as profile, user-supplied structure, user-supplied structure through a debug archive "
+             "written and replayed) x 4 output formats x single / multi-gene is walked, half of the plans after a warm-up "
+             "history in the same process (healthy run with the same file name, or an exome-route run); worlds are sampled. "
+             "Oracle: Aldy error, no call, no allele rows, exact empty simple line, healthy companion gene unchanged, "
+             "pseudogene-only = two deletions, just-above = call, a read error surfaces as such.",
         note="Trusted: the world generator's read layout (which reads belong to the locus). Two cells of the statement are "
              "not combined with a user-supplied structure because the statement does not settle them (DESIGN.md).",
         design="DESIGN.md section 4 (C19)",
